@@ -11,7 +11,7 @@ VERIF = os.path.dirname(os.path.dirname(os.path.abspath(__file__)))
 REPO = os.environ.get('PYVC_REPO', '/repo')
 
 PROP_MODULES = {
-    'C04': ['contracts.c04', 'contracts.c06', 'contracts.c08'], 'C05': ['contracts.c05'], 'C06': ['contracts.c06'],
+    'C04': ['contracts.c04', 'contracts.c06', 'contracts.c08'], 'C05': ['contracts.c05'], 'C06': ['contracts.c06', 'contracts.c10'],
     'C07': ['contracts.c07', 'contracts.c06'], 'C08': ['contracts.c08'], 'C09': ['contracts.c09'],
     'C10': ['contracts.c10'], 'C11': ['contracts.c11'], 'C12': ['contracts.c12', 'contracts.c10'],
     'C13': ['contracts.c13'], 'C14': ['contracts.c14'], 'C15': ['contracts.c15'],
@@ -151,6 +151,8 @@ def main(argv=None):
         elif r['status'] in ('unsupported', 'missing'):
             unsupported.append(r)
         for vc in r['vcs']:
+            if vc['status'] is None:
+                continue        # function could not be explored (unsupported / crash): reported per function
             if vc['kind'] == 'obligation':
                 n_ob += 1
                 if vc['status'] == 'discharged':
@@ -160,7 +162,7 @@ def main(argv=None):
                 else:
                     unknown.append((r, vc))
             else:
-                if vc['status'] != 'discharged':
+                if vc['status'] in ('refuted', 'unknown'):
                     covers_failed.append((r, vc))
     violations = []
     known_hits = []
@@ -168,19 +170,26 @@ def main(argv=None):
     shutil.rmtree(os.path.join(VERIF, 'replays', prop), ignore_errors=True)
     os.makedirs(os.path.join(VERIF, 'replays', prop), exist_ok=True)
     n_known_ob = 0
+    seen_obl = set()
     for r, vc in refuted:
         kf = match_known(known, r, vc)
         if kf:
             known_hits.append(kf)
             n_known_ob += 1
             continue
+        if (r['name'], vc['name']) in seen_obl:
+            continue
+        seen_obl.add((r['name'], vc['name']))
         rp = native.replay_refutation(prop, r, vc, nat)
         violations.append(rp)
     still_unknown = []
     for r, vc in unknown:
         # an obligation the solvers leave open, on a function for which the native search found a
         # failing input, is reported as a violation of that obligation (with the replayed input)
+        if (r['name'], vc['name']) in seen_obl:
+            continue
         if any(v.get('check') and not v.get('crash') for v in nat.get('violations', [])):
+            seen_obl.add((r['name'], vc['name']))
             rp = native.replay_refutation(prop, r, vc, nat)
             if rp['reproduced']:
                 violations.append(rp)
